@@ -2693,7 +2693,9 @@ fn c13_view(s: &Screen, exact: bool, what: &str) -> Vec<String> {
                         v.push(format!("{what}: cell ({r},{c}) has a second non-zero-width character U+{:04X} in {t:?}", ch as u32));
                     }
                 }
-                if cell.is_wide() != (w0 == 2) {
+                // "double-width" = occupies two columns: a cell pair cannot represent more, so the one
+                // character unicode-width reports as 3 columns wide (U+17D8) counts as double-width too
+                if cell.is_wide() != (w0 >= 2) {
                     v.push(format!("{what}: cell ({r},{c}) {t:?} is_wide()={} but the width of its first character is {w0}", cell.is_wide()));
                 }
             }
